@@ -14,6 +14,10 @@ replays exactly.
           ["mode", w, h, m]              pattern in PIL mode m incl. "P+t" (palette + transparent index)
           ["fn"|"nf", w, h, mode]        flat top / noise bottom half (or the reverse): strips of very
                                          different compressibility
+    set_method  [level, m]: set_render_method(m) on the "instance" or the "class" before rendering (the
+            per-call override, if any, is case["method"])
+    jpeg / jpeg_sub / jpeg_cls  iterm2 jpeg_quality set on the instance / on a fresh subclass the instance
+            is made from / on ITerm2Image itself (absent = left unset); "sub": true alone = subclass, nothing set
     pil_at  (pilfile / pilmem only) frame the PIL image is left positioned on before the image object is built
     kind  "pil"      PIL image built in memory (no file behind it)
           "file"     <Style>Image.from_file(path)
@@ -241,6 +245,16 @@ def build(case, w=None, h=None):
     cell = tuple(case["cell"]) if case.get("cell") else None
     world.setup(case["identity"], *(case.get("term") or TERM), cell=cell, **kw)
     cls = imgkit.style_class(case["style"])
+    if case["style"] == "iterm2":
+        if case.get("jpeg_cls") is not None:
+            cls.jpeg_quality = case["jpeg_cls"]        # undone by reset_world() of the next setup
+        if case.get("sub") or case.get("jpeg_sub") is not None:
+            cls = type("VerifSub", (cls,), {})
+            if case.get("jpeg_sub") is not None:
+                cls.jpeg_quality = case["jpeg_sub"]
+    sm = case.get("set_method")
+    if sm and sm[0] == "class":
+        cls.set_render_method(sm[1])                   # undone by reset_world() of the next setup
     src = case["src"]
     kind = case.get("kind", "pil")
     if src[0] in ANIMATED_KINDS and kind == "pil":
@@ -272,12 +286,28 @@ def build(case, w=None, h=None):
             img = cls(pil, **size_kw)
     if src[0] in ANIMATED_KINDS:
         img.seek(src[4])
+    if sm and sm[0] == "instance":
+        img.set_render_method(sm[1])
     if case["style"] == "iterm2":
         if case.get("jpeg") is not None:
             img.jpeg_quality = case["jpeg"]
         if case.get("rff") is not None:
             img.read_from_file = case["rff"]
     return Subject(img, pil, path, is_animated_src(src))
+
+
+def effective_method(case):
+    """Per-call override, else what was set on the instance / class, else the default (lines)."""
+    return case.get("method") or (case.get("set_method") or [None, None])[1] or "lines"
+
+
+def effective_jpeg(case):
+    """jpeg_quality the documentation promises for what the case CONFIGURED: instance value, else
+    the nearest class that has one, else disabled (None)."""
+    for k in ("jpeg", "jpeg_sub", "jpeg_cls"):
+        if case.get(k) is not None:
+            return case[k]
+    return None
 
 
 def style_args(case):
